@@ -76,6 +76,14 @@ func (p Parser) Parse(src io.Reader) (f File) {
 		}
 		index++
 
+		if hasAliasCycle(&doc, map[*yaml.Node]struct{}{}) {
+			f.Error = ParseError{
+				Line: max(doc.Line, 1),
+				Err:  errors.New("anchor value contains itself"),
+			}
+			return f
+		}
+
 		if p.isStrict {
 			g, f.Error = parseGroups(&doc, p.schema, 0, 0, cr.lines)
 			if f.Error.Err != nil {
@@ -504,6 +512,25 @@ func parseRule(node *yaml.Node, offsetLine, offsetColumn int, contentLines []str
 	}
 
 	return rule, true
+}
+
+// hasAliasCycle returns true if following aliases from this node leads back to a node that is still being visited,
+// walking such document would never end.
+func hasAliasCycle(node *yaml.Node, path map[*yaml.Node]struct{}) bool {
+	if node.Kind == yaml.AliasNode && node.Alias != nil {
+		node = node.Alias
+	}
+	if _, ok := path[node]; ok {
+		return true
+	}
+	path[node] = struct{}{}
+	defer delete(path, node)
+	for _, child := range node.Content {
+		if hasAliasCycle(child, path) {
+			return true
+		}
+	}
+	return false
 }
 
 func unpackNodes(node *yaml.Node) []*yaml.Node {
